@@ -47,6 +47,20 @@ def line_world():
     }
 
 
+def memline_world():
+    """an in-memory task between two persisted ones: changes upstream of it must still move the downstream result"""
+    return {
+        'name': 'memline',
+        'tasks': {
+            'V': {'params': [P('v')], 'inputs': [], 'data': 'json'},
+            'W': {'params': [P('w', default=0)], 'inputs': [bc('V')], 'data': 'inmemory'},
+            'X': {'params': [], 'inputs': [bc('W')], 'data': 'json'},
+        },
+        'configs': {'root': {'medium': 'inline', 'cname': 'root', 'tasks': ['V', 'W', 'X'], 'tasks_as_classes': True, 'values': {}}},
+        'root': 'root', 'variants': {},
+    }
+
+
 def sep_world():
     """two parameters, one not persisted when default: separator / quoting attacks between fields"""
     return {
@@ -66,7 +80,7 @@ def _keys_for(args):
 
     tcv.quiet_library()
     wname, members = args
-    desc = {'line': line_world, 'sep': sep_world}[wname]()
+    desc = {'line': line_world, 'sep': sep_world, 'memline': memline_world}[wname]()
     root = scratch.fresh('c03')
     w = worlds.World(desc, root)
     out = []
@@ -158,6 +172,9 @@ def run(tier, seed):
     jobs.append(('line', objs))
     for i in range(8):
         jobs.append(('sep', sep[i::8]))
+    memvals = plain[:300] + [(f'v=0,w={v!r}', {'v': 0, 'w': v}) for v in (1, 2, 'a', [1], None)]
+    for i in range(4):
+        jobs.append(('memline', memvals[i::4]))
     k = seed % len(jobs)
     jobs = jobs[k:] + jobs[:k]
     rows = []
